@@ -572,7 +572,10 @@ def _rand_spline_eval(rng, n1, maxdim=3, style="python"):
     scale, inds, grids, coefs, dims = [], [], [], [], []
     for t in range(nterms):
         nd = int(rng.integers(1, min(maxdim, n1) + 1))
-        ind = sorted(rng.choice(n1, size=nd, replace=False).tolist())
+        ind = rng.choice(n1, size=nd, replace=False).tolist()
+        if rng.random() < 0.4:
+            ind = sorted(ind)     # otherwise in drawn (generally non-ascending) order, as map_tools produces for
+            #                       SubsetRBF([2]) * SubsetARBF([0, 1]): [2, 0], [2, 1], [2, 0, 1]
         if style == "numpy":
             ind = [np.int64(v) for v in ind]
         sizes = [int(rng.integers(4, 8 if nd < 4 else 6)) for _ in range(nd)]
@@ -610,8 +613,13 @@ def _mapped_spline_eval(rng, n1, kind):
             k = kt.get_rbf_kernel(slice(0, min(n1, 3), None), ls, scale=float(rng.uniform(0.5, 2)))
             args = mt.get_mapped_gp_evaluator_simple(k, X, alpha, fl, rbf_density=3, max_ngrid=9)
         else:
-            k = kt.get_agpr_kernel(slice(0, 1, None), slice(1, None, None), ls, scale=list(rng.uniform(0.1, 1.0, size=3)),
-                                   order=2, nsingle=1)
+            if n1 >= 3 and rng.random() < 0.5:
+                # single-RBF feature AFTER the additive ones: index sets [n1-1, i] are not ascending
+                k = kt.get_agpr_kernel([n1 - 1], list(range(n1 - 1)), np.concatenate([ls[-1:], ls[:-1]]),
+                                       scale=list(rng.uniform(0.1, 1.0, size=3)), order=2, nsingle=1)
+            else:
+                k = kt.get_agpr_kernel(slice(0, 1, None), slice(1, None, None), ls, scale=list(rng.uniform(0.1, 1.0, size=3)),
+                                       order=2, nsingle=1)
             args = mt.get_mapped_gp_evaluator_additive(k, X, alpha, fl, srbf_density=3, arbf_density=3, max_ngrid=8)
     const = args[4] if len(args) > 4 else 0
     return xe.SplineSetEvaluator(args[0], args[1], args[2], args[3], const=const), [len(s) for s in args[1]]
